@@ -27,14 +27,15 @@ def map_param(decl):
     raise X.ExtractionBreak("apiwrap: unsupported parameter declaration %r" % decl)
 
 class Wrapper:
-    def __init__(self, tag, method, ptypes, calls=None):
-        self.tag, self.method, self.ptypes, self.calls = tag, method, ptypes, calls or {}
+    def __init__(self, tag, method, ptypes, calls=None, ret="void"):
+        self.tag, self.method, self.ptypes, self.calls, self.ret = tag, method, ptypes, calls or {}, ret
 
-def _sig_regex(method, ptypes):
+def _sig_regex(method, ptypes, ret="void"):
     parts = []
     for t in ptypes:
         parts.append(r'\s*' + t + r'\s*')
-    return r'void\s+TasmanianSparseGrid::%s\s*\(%s\)' % (method, ",".join(parts))
+    rt = r'void' if ret == "void" else r'std::vector<double>'
+    return r'%s\s+TasmanianSparseGrid::%s\s*\(%s\)' % (rt, method, ",".join(parts))
 
 V = r'(?:const\s+std::vector<int>\s*&|std::vector<int>\s+const\s*&)\s*\w+'
 VD = r'(?:const\s+std::vector<double>\s*&|std::vector<double>\s+const\s*&)\s*\w+'
@@ -80,6 +81,9 @@ WRAPPERS = [
     Wrapper("loadNeededValues_ptr", "loadNeededValues", [PD]),
     Wrapper("loadNeededValues_vec", "loadNeededValues", [VD], {"loadNeededValues": "loadNeededValues_ptr"}),
     Wrapper("beginConstruction", "beginConstruction", [], {"clearRefinement": "clearRefinement"}),
+    Wrapper("getCandidateConstructionPoints_aniso", "getCandidateConstructionPoints", [TD, V, V], ret="gvec"),
+    Wrapper("getCandidateConstructionPoints_output", "getCandidateConstructionPoints", [TD, I, V], ret="gvec"),
+    Wrapper("getCandidateConstructionPoints_surplus", "getCandidateConstructionPoints", [D, TF, I, V, VD], ret="gvec"),
     Wrapper("clear", "clear", []),
     Wrapper("setDomainTransform_vec", "setDomainTransform", [VD, VD]),
     Wrapper("clearDomainTransform", "clearDomainTransform", []),
@@ -101,6 +105,12 @@ def rewrite_body(R, w, b, params):
     b = R.sub("R9-throw-invalid_argument", r'\bthrow\s+std::invalid_argument\s*\((?:[^()"]|"(?:\\.|[^"\\])*"|\([^()]*\))*\)\s*;', '{ TSG_THROW(TSG_INVALID_ARGUMENT); return; }', b)
     b = R.sub("R9-throw-runtime_error", r'\bthrow\s+std::runtime_error\s*\((?:[^()"]|"(?:\\.|[^"\\])*"|\([^()]*\))*\)\s*;', '{ TSG_THROW(TSG_RUNTIME_ERROR); return; }', b)
     b = R.sub("R9-throw-other", r'\bthrow\b[^;]*;', '{ TSG_THROW(TSG_OTHER); return; }', b)
+    if w.ret == "gvec":
+        # the returned vector of points is a ghost descriptor handed back through ret_
+        b = R.sub("R5g-local-vector", r'std::vector<double>\s+x\s*;', 'gvec x = gvec_empty();', b)
+        b = R.sub("R5g-local-vector", r'\bauto\s+x\s*=', 'gvec x =', b)
+        b = X.balanced_call_sub(R, "R10-member-call", b, r'(?<![\w>.:])formTransformedPoints\s*(?=\()', lambda m, a: "TSG_formTransformedPoints(self, x)")
+        b = R.sub("R5g-return-vector", r'\breturn\s+x\s*;', '{ *ret_ = x; return; }', b)
     # ghost vectors / pointers
     for v in gvecs:
         b = R.sub("R5g-empty", r'\b%s\.empty\(\)' % v, '(%s.size == 0)' % v, b)
@@ -146,14 +156,14 @@ def emit(R, tags=None):
     headers = {}
     pieces = {}
     for w in WRAPPERS:
-        (p,) = X.cut(CPP, _sig_regex(w.method, w.ptypes), text)
+        (p,) = X.cut(CPP, _sig_regex(w.method, w.ptypes, w.ret), text)
         pl = p.header[p.header.index('(') + 1: p.header.rindex(')')]
         params = []
         cparams = []
         for d in (X.split_top(pl) if pl.strip() else []):
             c, kind = map_param(d)
             cparams.append(c); params.append((c.split()[-1], kind))
-        headers[w.tag] = ("void TSGW_%s(TSG *self%s)" % (w.tag, "".join(", " + c for c in cparams)), params)
+        headers[w.tag] = ("void TSGW_%s(TSG *self%s%s)" % (w.tag, "".join(", " + c for c in cparams), ", gvec *ret_" if w.ret == "gvec" else ""), params)
         pieces[w.tag] = p
     for w in WRAPPERS:
         out.append(headers[w.tag][0] + ";")
@@ -165,11 +175,11 @@ def emit(R, tags=None):
         out.append('#line %d "%s"' % (p.line, X.REPO + "/" + p.rel))
         out.append(chdr + b)
         src_all.append(p.body); emi_all.append(b)
-        info["functions"].append({"name": "TasmanianSparseGrid::%s [%s]" % (w.method, w.tag), "file": p.rel, "line": p.line, "loops": X.count_loops(b), "params": params})
+        info["functions"].append({"name": "TasmanianSparseGrid::%s [%s]" % (w.method, w.tag), "file": p.rel, "line": p.line, "loops": X.count_loops(b), "params": params, "ret": w.ret})
     info["fidelity"] = X.fidelity("\n".join(src_all), "\n".join(emi_all),
                                   extra_vocab=["string", "message", "to_string", "getRuleString", "invalid_argument", "runtime_error", "empty", "size", "data",
                                                "copyArray", "make_unique", "acceleration", "get", "base", "move", "llimits", "acc_domain", "reset", "Tasmanian_ENABLE_GPU", "ifdef", "endif",
-                                               "GridGlobal", "GridSequence", "GridLocalPolynomial", "GridWavelet", "GridFourier", "0", "!=", "==", "+", "clear"], slack=90)
+                                               "GridGlobal", "GridSequence", "GridLocalPolynomial", "GridWavelet", "GridFourier", "0", "!=", "==", "+", "clear", "x", "auto", "vector", "double", "formTransformedPoints", "getNumDimensions", "return"], slack=110)
     info["rules_fired"] = {k: v for k, v in R.counts.items() if v}
     info["drops"] = ["contents of vector/array arguments (ghost descriptors: identity and length only)", "constructor arguments other than the level limits (new_grid keeps family and limits)",
                      "text of exception messages", "#ifdef Tasmanian_ENABLE_GPU blocks"]
